@@ -41,7 +41,7 @@ for _f in sorted(_g.glob(_o.path.join(_o.path.dirname(_o.path.abspath(__file__))
 # ---- GoLite: decision functions regenerated from the Go source on every run (harness/translators/golite) and proved
 # equal to the model's predicates for all arguments (coq/Check/GoLite*.v over coq/gen/GoLiteFuns.v).
 _GL_FILES = {"validate": "Check/GoLiteValidate.v", "submit": "Check/GoLiteSubmit.v", "throttle": "Check/GoLiteThrottle.v",
-             "lazy": "Check/GoLiteLazy.v", "da": "Check/GoLiteDA.v", "admit": "Check/GoLiteAdmit.v", "includer": "Check/GoLiteIncluder.v", "queue": "Check/GoLiteQueue.v", "loop-filter": "Check/GoLiteLoopFilter.v", "loop-waiting": "Check/GoLiteLoopWaiting.v", "loop-chunks": "Check/GoLiteLoopChunks.v"}
+             "lazy": "Check/GoLiteLazy.v", "da": "Check/GoLiteDA.v", "admit": "Check/GoLiteAdmit.v", "includer": "Check/GoLiteIncluder.v", "queue": "Check/GoLiteQueue.v", "loop-filter": "Check/GoLiteLoopFilter.v", "loop-waiting": "Check/GoLiteLoopWaiting.v", "loop-chunks": "Check/GoLiteLoopChunks.v", "loop-pending": "Check/GoLiteLoopPending.v"}
 _GOLITE = {
     "C01": [("validate", "execValidate = Types.validate, SignedHeader.ValidateBasic = Types.validate_basic, types.Validate = Types.validate_pair")],
     "C02": [("validate", "execValidate = Types.validate (the validation the syncer applies to every received block)"),
@@ -51,10 +51,12 @@ _GOLITE = {
             ("validate", "isUsingExpectedSingleSequencer = Admission.is_expected_sequencer, isValidSignedData = Admission.is_valid_signed_data, SignedHeader.ValidateBasic = Types.validate_basic, Header.ValidateBasic (what go-header calls) = the non-empty proposer address test")],
     "C04": [("validate", "execValidate = Types.validate")],
     "C05": [("validate", "execValidate = Types.validate")],
-    "C06": [("submit", "Manager.exponentialBackoff = Submitter.exp_backoff, pendingBase.isEmpty = (store height =? watermark)"),
+    "C06": [("loop-pending", "the loop of pendingBase.getPending, translated shallowly, = Throttle.get_pending (the heights lastSubmitted+1 .. height, each fetched once, in increasing order, stop at the first failing fetch), by induction for ALL watermarks and heights"),
+            ("submit", "Manager.exponentialBackoff = Submitter.exp_backoff, pendingBase.isEmpty = (store height =? watermark)"),
             ("da", "types.SubmitWithHelpers = Proxy.submit_helper (the status the retry loop of submitToDA switches on)")],
     "C07": [("includer", "IsDAIncluded, SetRollkitHeightToDAHeight, incrementDAIncludedHeight with their effects in order (Put rhb/h/h, Put rhb/h/d, SetFinal(d+1), Put d, publish by compare-and-swap; nothing after a failed step) = the per-block effects of Includer.incl_effs, for all store contents, marks and heights")],
-    "C08": [("loop-waiting", "the loop of PendingData.numWaitingData, translated shallowly, = Throttle.waiting_loop (the count and the heights stepped over, in order), by induction for ALL pending lists"),
+    "C08": [("loop-pending", "the loop of pendingBase.getPending, translated shallowly, = Throttle.get_pending (the heights lastSubmitted+1 .. height, each fetched once, in increasing order, stop at the first failing fetch), by induction for ALL watermarks and heights"),
+            ("loop-waiting", "the loop of PendingData.numWaitingData, translated shallowly, = Throttle.waiting_loop (the count and the heights stepped over, in order), by induction for ALL pending lists"),
             ("throttle", "pendingBase.numPending = Throttle.sub64 (uint64 subtraction with wrap-around), pendingBase.isEmpty")],
     "C09": [("loop-chunks", "the chunked Get loop of types.RetrieveWithHelpers, translated shallowly into a Gallina Fixpoint, = Get over the chunks of Admission.chunks (100 ids each, last one shorter, none empty, in order, stop at the first error), by induction for ALL id lists"),
             ("admit", "handlePotentialHeader / handlePotentialData (block/retriever.go) with their effects — result, DA-included mark, includer signal, event sent to sync — = Admission.da_admit, for all genesis data, seen-sets, items and DA heights (blob decoding by class is assumed: C12)"),
